@@ -248,6 +248,37 @@ def r19_4(ck: Check) -> None:
         ck.violated("R19.4", construct, "self-connection handling: %s" % [e.describe()[:160] for e in add + dis], h.fi.loc)
 
 
+def r19_9(ck: Check) -> None:
+    """the other half of self-detection and of the reverse-direction entry: the greeting we SEND carries our own nonce and listening port,
+    once per connection, before anything else"""
+    s = ck.summ(CRP + ".step", 0)
+    sp = Spec(s, ("self", "now"))
+    hello = [e for e in s.events if e.kind == "call" and "new:skepticoin.networking.messages.HelloMessage" in e.targets]
+    sends = [e for e in s.events if e.kind == "call" and not e.chain and CRP + ".send_message" in e.targets]
+    mark = [e for e in s.events if e.kind == "store" and e.term == sp.term("self.hello_sent")]
+    first = sp.term("not self.hello_sent")
+    construct = "ConnectedRemotePeer.step: the greeting is sent once (hello_sent set), carrying local_peer.nonce and the listening port (0 if none)"
+    ok = False
+    if len(hello) == 1 and len(mark) == 1 and mark[0].value == C(True):
+        args = hello[0].term[2]
+        hs = [e for e in sends if e.term[2] and e.term[2][0] == hello[0].term]
+        ok = (len(args) >= 6 and args[5] == sp.term("self.local_peer.nonce")
+              and args[4] == sp.term("self.local_peer.port if self.local_peer.port else 0")
+              and len(hs) == 1 and [c.term for c in hs[0].pc] == [first] and [c.term for c in mark[0].pc] == [first])
+    if ok:
+        ck.ok("R19.9", construct, "", hello[0].loc)
+    else:
+        ck.violated("R19.9", construct, "%s" % [show(e.term)[:200] for e in hello], s.fi.loc)
+    gp = [e for e in sends if e.term[2] and e.term[2][0][0] == "call" and e.term[2][0][1] == ("g", "skepticoin.networking.messages.GetPeersMessage")]
+    construct = "ConnectedRemotePeer.step: peers are asked for only after the greeting was received, at most once per GET_PEERS_INTERVAL and one request at a time"
+    want = {sp.term("self.hello_received"), sp.term("not self.waiting_for_peers"),
+            sp.term("self.last_get_peers_sent_at is None or now > self.last_get_peers_sent_at + GET_PEERS_INTERVAL")}
+    if len(gp) == 1 and {x for c in gp[0].pc for x in conjuncts(c.term)} == want:
+        ck.ok("R19.9", construct, "", gp[0].loc)
+    else:
+        ck.violated("R19.9", construct, "%s" % [e.describe()[:200] for e in gp], s.fi.loc)
+
+
 def r19_6(ck: Check, rule: str = "R19.6") -> None:
     """only IPv4-mapped announced addresses are stored, as dotted quads (they are later handed to an AF_INET connect outside any catch-all)"""
     h = ck.summ(CRP + ".handle_peers_message_received", 0)
@@ -358,6 +389,7 @@ def check(ck: Check) -> None:
     ck.run("R19.4", "self-connection", lambda: r19_4(ck))
     ck.run("R19.5", "peers file", lambda: r19_5(ck))
     ck.run("R19.8", "announcements never overwrite a waiting entry", lambda: r19_8(ck))
+    ck.run("R19.9", "the greeting we send: own nonce, own listening port, once", lambda: r19_9(ck))
     ck.run("R19.6", "announced addresses are sanitised", lambda: r19_6(ck))
     from .common import rule_ctor_identity
     ck.run("R19.7", "peer records store what they are given", lambda: r19_7(ck))
